@@ -12,6 +12,7 @@ import (
 	"sync"
 	"sync/atomic"
 	"time"
+	"unicode/utf8"
 
 	"github.com/ash2k/stager/wait"
 	"github.com/cenkalti/backoff"
@@ -390,16 +391,40 @@ func (hfh *HttpForwarderHandlerV2) notifyFlush() {
 	}
 }
 
+// validUTF8 returns s, with every run of bytes that is not valid UTF-8 replaced by U+FFFD. Protobuf strings must be
+// valid UTF-8: a single tag the parser let through would otherwise make proto.Marshal reject the whole merged batch.
+func validUTF8(s string) string {
+	if utf8.ValidString(s) {
+		return s
+	}
+	return strings.ToValidUTF8(s, "\uFFFD")
+}
+
+// validUTF8Slice is validUTF8 for a slice; the slice is only copied when something has to change.
+func validUTF8Slice(ss []string) []string {
+	for i := range ss {
+		if !utf8.ValidString(ss[i]) {
+			out := make([]string, len(ss))
+			for j := range ss {
+				out[j] = validUTF8(ss[j])
+			}
+			return out
+		}
+	}
+	return ss
+}
+
 func translateToProtobufV2(metricMap *gostatsd.MetricMap) *pb.RawMessageV2 {
 	var pbMetricMap pb.RawMessageV2
 
 	pbMetricMap.Gauges = map[string]*pb.GaugeTagV2{}
 	for metricName, m := range metricMap.Gauges {
+		metricName = validUTF8(metricName)
 		pbMetricMap.Gauges[metricName] = &pb.GaugeTagV2{TagMap: map[string]*pb.RawGaugeV2{}}
 		for tagsKey, metric := range m {
-			pbMetricMap.Gauges[metricName].TagMap[tagsKey] = &pb.RawGaugeV2{
-				Tags:     metric.Tags,
-				Hostname: string(metric.Source),
+			pbMetricMap.Gauges[metricName].TagMap[validUTF8(tagsKey)] = &pb.RawGaugeV2{
+				Tags:     validUTF8Slice(metric.Tags),
+				Hostname: validUTF8(string(metric.Source)),
 				Value:    metric.Value,
 			}
 		}
@@ -407,11 +432,12 @@ func translateToProtobufV2(metricMap *gostatsd.MetricMap) *pb.RawMessageV2 {
 
 	pbMetricMap.Counters = map[string]*pb.CounterTagV2{}
 	for metricName, m := range metricMap.Counters {
+		metricName = validUTF8(metricName)
 		pbMetricMap.Counters[metricName] = &pb.CounterTagV2{TagMap: map[string]*pb.RawCounterV2{}}
 		for tagsKey, metric := range m {
-			pbMetricMap.Counters[metricName].TagMap[tagsKey] = &pb.RawCounterV2{
-				Tags:     metric.Tags,
-				Hostname: string(metric.Source),
+			pbMetricMap.Counters[metricName].TagMap[validUTF8(tagsKey)] = &pb.RawCounterV2{
+				Tags:     validUTF8Slice(metric.Tags),
+				Hostname: validUTF8(string(metric.Source)),
 				Value:    metric.Value,
 			}
 		}
@@ -419,15 +445,16 @@ func translateToProtobufV2(metricMap *gostatsd.MetricMap) *pb.RawMessageV2 {
 
 	pbMetricMap.Sets = map[string]*pb.SetTagV2{}
 	for metricName, m := range metricMap.Sets {
+		metricName = validUTF8(metricName)
 		pbMetricMap.Sets[metricName] = &pb.SetTagV2{TagMap: map[string]*pb.RawSetV2{}}
 		for tagsKey, metric := range m {
 			var values []string
 			for key := range metric.Values {
-				values = append(values, key)
+				values = append(values, validUTF8(key))
 			}
-			pbMetricMap.Sets[metricName].TagMap[tagsKey] = &pb.RawSetV2{
-				Tags:     metric.Tags,
-				Hostname: string(metric.Source),
+			pbMetricMap.Sets[metricName].TagMap[validUTF8(tagsKey)] = &pb.RawSetV2{
+				Tags:     validUTF8Slice(metric.Tags),
+				Hostname: validUTF8(string(metric.Source)),
 				Values:   values,
 			}
 		}
@@ -435,11 +462,12 @@ func translateToProtobufV2(metricMap *gostatsd.MetricMap) *pb.RawMessageV2 {
 
 	pbMetricMap.Timers = map[string]*pb.TimerTagV2{}
 	for metricName, m := range metricMap.Timers {
+		metricName = validUTF8(metricName)
 		pbMetricMap.Timers[metricName] = &pb.TimerTagV2{TagMap: map[string]*pb.RawTimerV2{}}
 		for tagsKey, metric := range m {
-			pbMetricMap.Timers[metricName].TagMap[tagsKey] = &pb.RawTimerV2{
-				Tags:        metric.Tags,
-				Hostname:    string(metric.Source),
+			pbMetricMap.Timers[metricName].TagMap[validUTF8(tagsKey)] = &pb.RawTimerV2{
+				Tags:        validUTF8Slice(metric.Tags),
+				Hostname:    validUTF8(string(metric.Source)),
 				SampleCount: metric.SampledCount,
 				Values:      metric.Values,
 			}
@@ -626,14 +654,14 @@ func (hfh *HttpForwarderHandlerV2) dispatchEvent(ctx context.Context, e *gostats
 	postId := atomic.AddUint64(&hfh.postId, 1) - 1
 
 	message := &pb.EventV2{
-		Title:          e.Title,
-		Text:           e.Text,
+		Title:          validUTF8(e.Title),
+		Text:           validUTF8(e.Text),
 		DateHappened:   e.DateHappened,
-		Hostname:       string(e.Source),
-		AggregationKey: e.AggregationKey,
-		SourceTypeName: e.SourceTypeName,
-		Tags:           e.Tags,
-		SourceIP:       string(e.Source),
+		Hostname:       validUTF8(string(e.Source)),
+		AggregationKey: validUTF8(e.AggregationKey),
+		SourceTypeName: validUTF8(e.SourceTypeName),
+		Tags:           validUTF8Slice(e.Tags),
+		SourceIP:       validUTF8(string(e.Source)),
 	}
 
 	switch e.Priority {
